@@ -40,6 +40,9 @@ pub struct RefEv {
     pub seq: u32,
     /// the event is a gate future (has a Create record): in async kinds only gates can wait
     pub gate: bool,
+    /// the gate future was created inside a block capture (its creation belongs to the capture,
+    /// its first poll and its value to the branch)
+    pub created_in_capture: bool,
 }
 
 #[derive(Clone, Debug)]
@@ -78,7 +81,13 @@ pub fn run_reference(prog: &Prog, plan: &Plan) -> RefRun {
         if r.ph == Ph::Pass {
             let tag = if r.tag != u32::MAX { g.tags[r.tag as usize].clone() } else { Vec::new() };
             let gate = g.happened.contains(&(r.ev, r.occ, Ph::Create as u8));
-            let e = RefEv { ev: r.ev, occ: r.occ, dg: r.dg, tag, seq: r.seq, gate };
+            let created_in_capture = g
+                .log
+                .iter()
+                .find(|c| c.ph == Ph::Create && c.ev == r.ev && c.occ == r.occ)
+                .map(|c| c.tag != u32::MAX && g.tags[c.tag as usize] != tag)
+                .unwrap_or(false);
+            let e = RefEv { ev: r.ev, occ: r.occ, dg: r.dg, tag, seq: r.seq, gate, created_in_capture };
             if plan.panic == Some((r.ev, r.occ)) {
                 panic_at = Some(e.clone());
             }
